@@ -337,7 +337,7 @@ func progDepth(p Prog) int {
 }
 
 func check(run *common.Run) {
-	run.Res.Rule = "cases = (a) structural queries: for every generated declaration set (3–6 struct types embedding earlier ones by value / by pointer / as a plain field, up to depth 3, value- and pointer-receiver methods drawn from four names with two signatures, func() fields named like methods, 3–4 interface types with embedding) every (struct type, selector name), every method set of T and *T, every (T or *T, interface) pair; (b) programs: the same sets crossed with 29 scenario forms (call on variable / pointer / &v / function result, method value with and without a later mutation, method expression, interface assignment by value and by pointer with and without a later mutation, assertion from a typed / empty interface to named, pointer, interface and anonymous-interface types in both result forms, type switches with and without binding, nil interface values, error / fmt.Stringer / io.Writer / sort.Interface handed to host functions); every method increments and prints its receiver state, every program dumps its variable at the end; non-trivial = the type under test embeds at least one struct; distinct = distinct protocol line"
+	run.Res.Rule = "cases = (a) structural queries: for every generated declaration set (3–6 struct types embedding earlier ones by value / by pointer / as a plain field, up to depth 3, value- and pointer-receiver methods drawn from four names with two signatures, func() fields named like methods, 3–4 interface types with embedding) every (struct type, selector name), every method set of T and *T, every (T or *T, interface) pair; (b) programs: the same sets crossed with 33 scenario forms (call on variable / pointer / &v / function result, method value with and without a later mutation, method expression, interface assignment by value and by pointer with and without a later mutation, assertion from a typed / empty interface to named, pointer, interface and anonymous-interface types in both result forms, type switches with and without binding, with overlapping interface clauses and a default clause at every position, a value-receiver method reached through a pointer variable / a promotion over an embedded pointer / an interface holding a pointer / a method value bound from a pointer with the operand dumped afterwards, nil interface values, error / fmt.Stringer / io.Writer / sort.Interface handed to host functions); every method increments and prints its receiver state, every program dumps its variable at the end; non-trivial = the type under test embeds at least one struct; distinct = distinct protocol line"
 	drv, err := common.StartDriver("C05")
 	if err != nil {
 		run.Errorf("driver: %v", err)
@@ -389,7 +389,7 @@ func check(run *common.Run) {
 			hierarchies = append(hierarchies, ts)
 			for _, f := range all {
 				reps := 1
-				if run.Thorough() && (strings.HasPrefix(f, "call") || strings.HasPrefix(f, "tswitch") || strings.HasPrefix(f, "assert")) {
+				if run.Thorough() && (strings.HasPrefix(f, "call") || strings.HasPrefix(f, "tswitch") || strings.HasPrefix(f, "assert") || strings.HasPrefix(f, "recv")) {
 					reps = 2
 				}
 				for k := 0; k < reps; k++ {
@@ -496,7 +496,8 @@ func check(run *common.Run) {
 		same := im.Out == rf.Out
 		if i < nKnown {
 			f := knownFs[i]
-			if cl := listedClasses(f.ID); len(cl) > 0 && !contains(cl, class) {
+			// a repaired finding keeps the class it had; its replay input is in another class (or none) now
+			if cl := listedClasses(f.ID); f.Status != "fixed" && len(cl) > 0 && !contains(cl, class) {
 				run.Errorf("finding %s: its replay input has class %q, the entry lists %v", f.ID, class, cl)
 			}
 			run.Res.Known = append(run.Res.Known, common.KnownReplay{ID: f.ID, Status: f.Status, What: f.What, StillFails: !same,
@@ -518,6 +519,27 @@ func check(run *common.Run) {
 		run.Hit("class:" + class)
 		run.Hit("form:" + p.Form)
 		run.Hit(fmt.Sprintf("embedding-depth:%d", progDepth(p)))
+		for _, st := range p.Stmts {
+			if st.Op != "tswitch" {
+				continue
+			}
+			pos := "none"
+			for k, c := range st.Clauses {
+				switch {
+				case len(c) > 0:
+				case k == len(st.Clauses)-1:
+					pos = "last"
+				case k == 0:
+					pos = "first"
+				default:
+					pos = "middle"
+				}
+			}
+			run.Hit("tswitch-default:" + pos)
+			if class == "in-domain" {
+				run.Hit("tswitch-default:" + pos + ",in-domain")
+			}
+		}
 		switch {
 		case im.Out == "!reject":
 			run.Hit("impl:rejects")
